@@ -490,10 +490,107 @@ func (c *Ctx) c18Unmarshal() {
 				}
 			}
 		}
-		if idxCall == nil || len(selfCalls) == 0 {
+		takesValue := false
+		for _, p := range f.Params {
+			if flow.TypeIs(p.Type(), "reflect", "Value") {
+				takesValue = true
+			}
+		}
+		walksFields := false
+		for _, ci := range flow.CallInstrs(f) {
+			if o := flow.CalleeObj(ci); o != nil && o.Pkg() != nil && o.Pkg().Path() == "reflect" && o.Name() == "NumField" {
+				walksFields = true
+			}
+		}
+		if len(selfCalls) == 0 || !takesValue || (idxCall == nil && !walksFields) {
 			continue
 		}
 		key := fname(f) + ":scans-complete-avp-list"
+		if idxCall == nil {
+			// the index built in place: a map made here and filled in a loop over the complete list
+			var made *ssa.MakeMap
+			flow.Instrs(f, func(in ssa.Instruction) {
+				if mk, ok := in.(*ssa.MakeMap); ok {
+					if mt, ok := mk.Type().Underlying().(*types.Map); ok && isAVPSlice(mt.Elem()) {
+						made = mk
+					}
+				}
+			})
+			if made != nil {
+				fromList, n := true, 0
+				flow.Instrs(f, func(in ssa.Instruction) {
+					mu, ok := in.(*ssa.MapUpdate)
+					if !ok || mu.Map != ssa.Value(made) {
+						return
+					}
+					n++
+					// the element appended is an element of the parameter list
+					okElem := false
+					if call, ok := mu.Value.(*ssa.Call); ok && len(call.Call.Args) >= 2 {
+						if b, ok := call.Call.Value.(*ssa.Builtin); ok && b.Name() == "append" {
+							el := call.Call.Args[1]
+							if sl, ok := el.(*ssa.Slice); ok {
+								// append(x, e) lowers the variadic part to a one-element array slice
+								if al, ok := sl.X.(*ssa.Alloc); ok {
+									for _, ref := range flow.Referrers(al) {
+										if ia, ok := ref.(*ssa.IndexAddr); ok {
+											for _, r2 := range flow.Referrers(ia) {
+												if st, ok := r2.(*ssa.Store); ok {
+													el = st.Val
+												}
+											}
+										}
+									}
+								}
+							}
+							if ld, ok := el.(*ssa.UnOp); ok && ld.Op == token.MUL {
+								if ia, ok := ld.X.(*ssa.IndexAddr); ok && ia.X == ssa.Value(avps) {
+									okElem = true
+								}
+							}
+						}
+					}
+					if !okElem {
+						fromList = false
+					}
+				})
+				good := fromList && n > 0
+				why := "the field index built in the scanner is not filled from the complete AVP list the function was given"
+				ai := paramIndex(f, avps)
+				for _, sc := range selfCalls {
+					if sc.Call.Args[ai] != ssa.Value(avps) {
+						good, why = false, "the recursion into an embedded struct does not receive the complete AVP list of the enclosing level (its fields come back empty when another field was looked up before)"
+					}
+				}
+				r.Check(good, "R4", key, c.fpos(f), "index built in place from, and embedded structs scanned with, the function's own complete AVP list", why)
+				continue
+			}
+		}
+		if idxCall == nil {
+			// no per-level index: how does a field find its AVPs? not through a search that descends into groups
+			why := "the struct scanner builds no index of the AVP list of its level: cannot see how a field finds its AVPs"
+			var at ssa.Instruction
+			ws := map[*ssa.Function]bool{}
+			for _, w := range c.walkers() {
+				ws[w.fn] = true
+			}
+			for _, ci := range flow.CallInstrs(f) {
+				if g := flow.StaticCallee(ci); g != nil && ws[g] {
+					for _, a := range ci.Common().Args {
+						if a == ssa.Value(avps) {
+							why = "a field's AVPs are looked up with " + g.Name() + ", which descends into grouped AVPs: an AVP of the same code nested inside a group of this level is taken for the field's own (extra slice elements, a value for a field whose AVP is absent)"
+							at = ci
+						}
+					}
+				}
+			}
+			if at != nil {
+				r.Fail("R4", key, c.pos(at), why)
+			} else {
+				r.Undecided("R4", key, c.fpos(f), why)
+			}
+			continue
+		}
 		good := len(idxCall.Call.Args) == 1 && idxCall.Call.Args[0] == ssa.Value(avps)
 		why := "the field index is not built from the complete AVP list the function was given"
 		ai := paramIndex(f, avps)
